@@ -1032,5 +1032,6 @@ for T, U, TB in ST:
     if want('bi_from_' + T):
         w(inst(BI_FROM_S, T, TB).replace('@U@', U).lstrip('\n'))
 root = os.path.dirname(os.path.dirname(os.path.abspath(__file__)))
-for k, name in ((1, 'numtraits_conv'), (2, 'numtraits_conv2'), (3, 'numtraits_conv3')):
-    open(os.path.join(root, 'units', name + '.vrs'), 'w').write(OUT[k].getvalue())
+if __name__ == '__main__':   # (the templates above are imported by gen_numtraits_conv4.py)
+    for k, name in ((1, 'numtraits_conv'), (2, 'numtraits_conv2'), (3, 'numtraits_conv3')):
+        open(os.path.join(root, 'units', name + '.vrs'), 'w').write(OUT[k].getvalue())
